@@ -173,6 +173,15 @@ fn main() {
             let outs = h.join().unwrap();
             std::fs::write(out_path, serde_json::to_vec(&outs).unwrap()).unwrap();
         }
+        "sysio-selftest" => {
+            // are std's file reads bound to the definitions in sysio.rs?
+            rwsv::sysio::enable(true);
+            let before = rwsv::sysio::crossed();
+            let _ = std::fs::read(&args[2]);
+            let _ = std::fs::metadata(&args[2]);
+            rwsv::sysio::enable(false);
+            println!("crossed {}", rwsv::sysio::crossed() - before);
+        }
         "oracle-selftest" => match rwsv::oracle::selftest::run() {
             Ok(n) => {
                 eprintln!("oracle self-test: {} assertions hold", n);
